@@ -36,7 +36,7 @@ ASSUME = [
     "infix notation is enabled and the environment under get_env() is the one that owns the operands",
     "literal promotion is modelled for a constant cache without cross-type hits (Int(True) after Int(1), Int(Fraction(2)) after Int(2) return the cached node: history dependence, properties C04/C14)",
     "theorems carry explicit sort hypotheses on the operand VALUES (VBool/VInt/VReal/VBV of the stated width and range) and, for bit-vector constructors that read bv_width(), tc a = Some (TBV w); Not nodes have one argument",
-    "BVRepeat: accepted iff count >= 1 (C06_repeat); count <= 0 returning one copy was the finding repaired in /repo commit 9f23fdc and is now a regression case of the domain oracle (keys accepts:BVRepeat:*/count<=0)",
+    "BVRepeat: accepted iff count >= 1 (C06_repeat); count <= 0 returning one copy was the finding repaired in /repo commit 9f23fdc and is now a regression case of the domain oracle (keys accepts:BVRepeat:*/count<=0); BVRepeat(i, 1) on a non-bit-vector i returning i was repaired in 7e93ce0 and is a regression case too (accepts:BVRepeat:<sort>/count>=1)",
 ]
 RULE = ("every derived constructor and infix form x arities 0-6 x argument shapes (symbol / constant / compound) over Bool, Int, Real, BV1-3 "
         "(BV4 in thorough), both calling conventions F(a,b,c) and F([a,b,c]); exact structural equality with the model; oracle exhaustive over all "
@@ -391,7 +391,7 @@ def misc_specs(pools, rnd, tier, out, shortcuts_abs, maxw):
                 if isbv:
                     valid, direct = (VALID, (lambda v, count=count: d_repeat(v[0], count))) if count >= 1 else (INVALID, None)
                 else:
-                    valid, direct = (ANY if count == 1 else INVALID), None      # count <= 0 must raise for any operand
+                    valid, direct = INVALID, None      # not a bit-vector: must raise for every count (count = 1 included: /repo 7e93ce0)
                 out.append(Spec("BVRepeat", "%s/%s" % ("BV" if isbv else sname(t), "count>=1" if count >= 1 else "count<=0"),
                                 "BVRepeat(%s, %d)" % (a.serialize(), count), (lambda a=a, count=count: m.BVRepeat(a, count)),
                                 (lambda nm, a=a, count=count: "mk_bvrepeat %s %s" % (nm[a], zc(count))),
@@ -555,7 +555,7 @@ def infix_specs(pools, rnd, tier, out, literals, light=False):
                 out.append(Spec("method:BVRepeat", "%s/%s" % (sname(t), "count>=1" if k >= 1 else "count<=0"), "(%s).BVRepeat(%d)" % (left.serialize(), k),
                                 (lambda left=left, k=k: left.BVRepeat(k)), (lambda nm, left=left, k=k: "mk_bvrepeat %s %s" % (nm[left], zc(k))),
                                 operands=[left], direct=(lambda v, k=k: d_repeat(v[0], k)) if (t.is_bv_type() and k >= 1) else None,
-                                valid=(VALID if k >= 1 else INVALID) if t.is_bv_type() else (ANY if k == 1 else INVALID)))
+                                valid=(VALID if k >= 1 else INVALID) if t.is_bv_type() else INVALID))
                 out.append(Spec("method:BVExtract", "%s/%d" % (sname(t), k), "(%s).BVExtract(%d, %d)" % (left.serialize(), k, k + 1),
                                 (lambda left=left, k=k: left.BVExtract(k, k + 1)),
                                 (lambda nm, left=left, k=k: "mk_bvextract %s %s (Some %s)" % (nm[left], zc(k), zc(k + 1))), operands=[left],
